@@ -445,6 +445,25 @@ func c11(tier string) int {
 	run.Set("roundtrip_old_sizes", len(olds))
 	run.Set("roundtrip_proofs", len(proofs))
 	run.Set("roundtrip_checkpoints", len(cps))
+	// Retention: what parseBody returned for the PREVIOUS body must still be
+	// what it returned after the next body has been parsed (a result that
+	// aliases a reused buffer changes under the caller's feet).
+	var prevBody, prevCP, prevCPCopy []byte
+	var prevProof, prevProofCopy [][]byte
+	retained := func() {
+		if prevBody == nil {
+			return
+		}
+		run.Add("retention_checks", 1)
+		if !bytes.Equal(prevCP, prevCPCopy) || !eqProof(prevProof, prevProofCopy) {
+			what := "checkpoint bytes"
+			if bytes.Equal(prevCP, prevCPCopy) {
+				what = "proof hashes"
+			}
+			run.Report("result-not-retained "+strings.ReplaceAll(what, " ", "-"), fmt.Sprintf("the %s parseBody returned for body %q changed when the next body was parsed", what, short(string(prevBody))),
+				map[string]any{"kind": "parse-body", "body_b64": base64.StdEncoding.EncodeToString(prevBody), "origin": "retention"})
+		}
+	}
 	rt := func(old uint64, p [][]byte, cp []byte, writer string) {
 		var body []byte
 		if writer == "harness" {
@@ -462,6 +481,13 @@ func c11(tier string) int {
 		gold, gp, gcp, err := bastion.VerifParseBody(bytes.NewReader(body))
 		evals++
 		c11Mark(body)
+		retained()
+		prevBody, prevCP, prevProof = body, gcp, gp
+		prevCPCopy = append([]byte{}, gcp...)
+		prevProofCopy = nil
+		for _, h := range gp {
+			prevProofCopy = append(prevProofCopy, append([]byte{}, h...))
+		}
 		c11Delivery(run, body, c11Parse{old: gold, proof: gp, cp: gcp, err: err}, false)
 		if err != nil || gold != old || !eqProof(gp, p) || !bytes.Equal(gcp, cp) {
 			kind := "refused"
@@ -569,7 +595,7 @@ func c11(tier string) int {
 	run.Set("evaluations", evals)
 	run.Set("distinct_nontrivial", c11Distinct())
 	run.Set("exhaustive", true)
-	run.Set("rule", fmt.Sprintf("generator side: old sizes {0,1,9,10,99,2^32-1,2^32,2^63-1,2^63,2^64-1} x proofs (every length 0..64 of 1-, 32-, 33-, 63- and 64-byte hashes; all lists of <= %d hashes with lengths {1,2,3,31,32,33,63,64} x 4 boundary fillings) x checkpoint bytes (all strings of <= 4 chunks over {x, LF, LFLF, CRLF, 0xff, a signature-like line, empty} + real checkpoints), written by the harness writer and in the shape of cmd/feedbastion; parseBody must return exactly what was written; Proof.Marshal/Unmarshal over every proof list incl. the empty one. Refusal side: ALL strings of <= %d tokens over a 12-token alphabet and the complete 1-edit neighbourhood (every prefix, single-byte deletion, insertion of 18 tokens at every position, every single-bit flip) of four valid bodies, judged by a reference parser with classes accept / must-refuse (no well-formed old-size line, proof line not base64, ends before the blank separator) / unspecified; refusals must return zero values. Delivery: every body above is also read one byte at a time and in 3-byte pieces (4095/4096-byte pieces when longer than 4096 bytes), and six valid bodies (incl. 64 x 64-byte and 64 x 32-byte proofs) additionally with one short read at every offset and, when <= 600 bytes, two short reads at every pair of offsets; the reading must not depend on it. distinct_nontrivial = number of distinct bodies/lists evaluated (token strings that concatenate to the same bytes are counted once)", maxList, L))
+	run.Set("rule", fmt.Sprintf("generator side: old sizes {0,1,9,10,99,2^32-1,2^32,2^63-1,2^63,2^64-1} x proofs (every length 0..64 of 1-, 32-, 33-, 63- and 64-byte hashes; all lists of <= %d hashes with lengths {1,2,3,31,32,33,63,64} x 4 boundary fillings) x checkpoint bytes (all strings of <= 4 chunks over {x, LF, LFLF, CRLF, 0xff, a signature-like line, empty} + real checkpoints), written by the harness writer and in the shape of cmd/feedbastion; parseBody must return exactly what was written; Proof.Marshal/Unmarshal over every proof list incl. the empty one. Refusal side: ALL strings of <= %d tokens over a 12-token alphabet and the complete 1-edit neighbourhood (every prefix, single-byte deletion, insertion of 18 tokens at every position, every single-bit flip) of four valid bodies, judged by a reference parser with classes accept / must-refuse (no well-formed old-size line, proof line not base64, ends before the blank separator) / unspecified; refusals must return zero values. Retention: the result returned for one body is compared again after the next body was parsed. Delivery: every body above is also read one byte at a time and in 3-byte pieces (4095/4096-byte pieces when longer than 4096 bytes), and six valid bodies (incl. 64 x 64-byte and 64 x 32-byte proofs) additionally with one short read at every offset and, when <= 600 bytes, two short reads at every pair of offsets; the reading must not depend on it. distinct_nontrivial = number of distinct bodies/lists evaluated (token strings that concatenate to the same bytes are counted once)", maxList, L))
 	run.Assumption("leniencies the property does not name (CRLF line ends, leading zeros, non-canonical base64 padding bits, lines longer than 4096 bytes) are classified 'unspecified': executed, required to return zero values on refusal, otherwise not judged")
 	return run.Finish()
 }
